@@ -114,7 +114,11 @@ class Ed25519Key(PKey):
         else:
             raise SSHException("Invalid key")
 
-        if ciphername != "none" and ciphername not in Transport._cipher_info:
+        if ciphername != "none" and (
+            ciphername not in Transport._cipher_info
+            # transport ciphers without a block mode (AEAD) cannot be used here
+            or "mode" not in Transport._cipher_info[ciphername]
+        ):
             raise SSHException("Invalid key")
 
         public_keys = []
